@@ -23,6 +23,7 @@ var vShapes = [][][][]int{
 	{{{1}, {2}, {3}}, {{1}, {3}}},         // the same, other sample order
 	{{{1}, {2}, {}}, {{1}}},               // unsymbolized leaf address (a location without lines) under symbolized callers
 	{{{}, {2}}, {{2}}},                    // unsymbolized root address
+	{{{1}, {2, 3}}, {{1}, {2}}},           // an inlined pair as the leaf location; its caller is also a leaf elsewhere
 }
 
 type vProf struct {
